@@ -1187,7 +1187,7 @@ fn main() {
     let known = simcore::known::load();
 
     // ---- batch 1: fault-free configuration (round trip must hold for every record) ----
-    let n_clean: u64 = runs_override.map(|r| r / 4).unwrap_or(if thorough { 400_000 } else { 20_000 });
+    let n_clean: u64 = runs_override.map(|r| r / 4).unwrap_or(if thorough { 500_000 } else { 50_000 });
     let mut total: Stats = pool::run_parallel(n_clean, workers, |idx, acc: &mut Stats, cut: &Cutoff| {
         if let (s, Some(v)) = simulate_run(seed, idx, true, acc) {
             cut.lower_to(idx);
@@ -1215,7 +1215,7 @@ fn main() {
     println!("fault-free: {} runs + control sweep over {} days/seconds ({} records) in {:.1}s", clean_runs, ctrl_items, ctrl_records, t1 - t0);
 
     // ---- batch 2: fault-injecting configuration ----
-    let n_fault: u64 = runs_override.unwrap_or(if thorough { 1_500_000 } else { 60_000 });
+    let n_fault: u64 = runs_override.unwrap_or(if thorough { 2_000_000 } else { 200_000 });
     let fault: Stats = if total.violations.is_empty() {
         pool::run_parallel(n_fault, workers, |idx, acc: &mut Stats, cut: &Cutoff| {
             if let (s, Some(v)) = simulate_run(seed, idx, false, acc) {
